@@ -402,6 +402,46 @@ fn sop_expr(r: &mut StdRng, depth: usize, leaves: usize, next: &mut usize, ops: 
     }
 }
 
+/// Operations on a long structured cube list (see gen_c14)
+pub fn long_list_ops(r: &mut StdRng, n: usize, base: usize, round: usize) -> Vec<Value> {
+    let top = n - 1; // shared literal
+    let hi = n - 2; // the variable of the trailing cubes (highest positive bit: sorts last)
+    // pairwise incomparable cubes (so that all of them are kept): hi / 2 positive literals among the low
+    // variables, all sharing one negative literal; as many as asked for, or as exist
+    let mut all: Vec<usize> = (0..(1usize << hi)).filter(|m| m.count_ones() as usize == hi / 2).collect();
+    for k in (1..all.len()).rev() {
+        all.swap(k, r.gen_range(0..=k));
+    }
+    let mut l: Vec<(usize, usize)> = all.into_iter().take(base).map(|p| (p, 1 << top)).collect();
+    // trailing cubes: x_hi alone, x_i x_hi, !x_j x_hi, and the same with the shared literal
+    let i = r.gen_range(0..hi);
+    let jv = r.gen_range(0..hi);
+    let mut tail = vec![(1 << hi, 0), ((1 << hi) | (1 << i), 0), (1 << hi, 1 << jv), ((1 << hi) | (1 << i), 1 << top)];
+    if round % 2 == 1 {
+        tail.reverse();
+    }
+    // a literal-free neighbour for the first group as well
+    l.extend(tail);
+    if round % 4 >= 2 {
+        // shuffled input order (simplify sorts)
+        for k in (1..l.len()).rev() {
+            l.swap(k, r.gen_range(0..=k));
+        }
+    }
+    let mut ops = vec![
+        sop_mk(0, n, &l, "sop"),
+        json!({"op": "t_mk", "k": "sop", "c": "zero", "d": 1, "n": n}),
+        json!({"op": "t_mk", "k": "sop", "c": "one", "d": 2, "n": n}),
+        json!({"op": "t_bin", "g": "or", "f": FORMS[round % 4], "a": 0, "b": 1, "d": 3}),
+        json!({"op": "t_bin", "g": "and", "f": FORMS[(round + 1) % 4], "a": 0, "b": 2, "d": 4}),
+        json!({"op": "t_bin", "g": "or", "f": FORMS[(round + 2) % 4], "a": 0, "b": 0, "d": 5}),
+        json!({"op": "t_info", "a": 3}),
+        json!({"op": "t_info", "a": 4}),
+    ];
+    ops.push(json!({"op": "t_tolut", "a": 3, "f": "ref"}));
+    ops
+}
+
 /// C14: Sop operations
 pub fn gen_c14(thorough: bool, seed: u64) -> Vec<Episode> {
     let mut eps = Vec::new();
@@ -544,6 +584,14 @@ pub fn gen_c14(thorough: bool, seed: u64) -> Vec<Episode> {
             eps.push(ep(n, ops));
         }
     }
+    // long lists (60 .. 140 cubes) most of which share a literal, followed in the sorted order by a few cubes on
+    // the top variables in implication relation: the absorption pass of `simplify` at list positions around
+    // multiples of 64, where a block-wise or summarised scan would go wrong
+    for round in 0..(if thorough { 24 } else { 8 }) {
+        let n = 10 + round % 3;
+        let base = [61usize, 62, 63, 64, 65, 66, 127, 128][round % 8];
+        eps.push(ep(n, long_list_ops(&mut r, n, base, round)));
+    }
     eps
 }
 
@@ -655,6 +703,40 @@ fn c15_long_lists(thorough: bool, r: &mut StdRng, eps: &mut Vec<Episode>) {
         ops.push(json!({"op": "t_tolut", "a": 0, "f": "ref"}));
         eps.push(ep(n, ops));
     }
+}
+
+/// Forms whose adjacent terms print as prefixes of one another (see gen_c16)
+pub fn confusable_ops(r: &mut StdRng, n: usize, round: usize) -> Vec<Value> {
+    // a common prefix of literals on variables printed BEFORE x1 (only x0), then x1 | x1d, d = 0, 1
+    let two = if n >= 12 && round % 2 == 1 { 11 } else { 10 };
+    let pre: (usize, usize) = match round % 3 {
+        0 => (0, 0),
+        1 => (1, 0),
+        _ => (0, 1),
+    };
+    let neg_last = round % 4 >= 2;
+    let lit = |v: usize| -> (usize, usize) { if neg_last { (pre.0, pre.1 | (1 << v)) } else { (pre.0 | (1 << v), pre.1) } };
+    let a = lit(1);
+    let b = lit(two);
+    let other = random_cube(r, n, 3);
+    let lists: Vec<Vec<(usize, usize)>> = vec![vec![a, b], vec![b, a], vec![other, a, b], vec![a, b, other], vec![a, other, b], vec![b, a, (a.0 | (1 << 2), a.1)]];
+    let mut ops = Vec::new();
+    for (k, l) in lists.iter().enumerate() {
+        let kind = if (k + round) % 2 == 0 { "sop" } else { "esop" };
+        ops.push(sop_mk(0, n, l, kind));
+        ops.push(json!({"op": "t_text", "a": 0, "n": n}));
+        ops.push(sop_mk(1, n, l, if kind == "sop" { "esop" } else { "sop" }));
+        ops.push(json!({"op": "t_text", "a": 1, "n": n}));
+    }
+    // exclusive terms: x1 | x10, 1 ^ x1 | 1 ^ x1 ^ x10, ...
+    let e1 = ecube_json(1 << 1, round % 2 == 0);
+    let e2 = ecube_json(1 << two, round % 2 == 0);
+    let e3 = ecube_json((1 << 1) | (1 << two), round % 4 < 2);
+    for l in [vec![e1.clone(), e2.clone()], vec![e2.clone(), e1.clone()], vec![e1.clone(), e3.clone()], vec![e3, e1, e2]] {
+        ops.push(json!({"op": "t_mk", "k": "soes", "c": "from_cubes", "d": 2, "n": n, "cubes": l}));
+        ops.push(json!({"op": "t_text", "a": 2, "n": n}));
+    }
+    ops
 }
 
 /// C16: Display of cubes and forms
@@ -797,6 +879,13 @@ pub fn gen_c16(thorough: bool, seed: u64) -> Vec<Episode> {
             eps.push(ep(n, ops));
         }
     }
+    // terms whose texts are prefixes of one another once indices have two digits (x1 / x10 / x11, !x1 / !x10):
+    // adjacent in the list in both orders, behind a common literal prefix, in all three kinds of form
+    for n in [11usize, 12] {
+        for round in 0..(if thorough { 24 } else { 6 }) {
+            eps.push(ep(n, confusable_ops(&mut r, n, round)));
+        }
+    }
     eps
 }
 
@@ -923,6 +1012,45 @@ pub fn gen_c18(thorough: bool, seed: u64) -> Vec<Episode> {
             let kind = kinds[r.gen_range(0..3)];
             let t = triples[r.gen_range(0..triples.len())];
             push(&mut eps, 3, vec![onset(3, r.gen_range(0..256)), onset(3, r.gen_range(0..256))], kind, t);
+        }
+    }
+    // beyond the exact optimum of the specification (Esop with several outputs at n = 3, anything at n = 4): the same
+    // instance under two random input permutations / output orders must get the same cost, and no more than
+    // the minterm / Reed-Muller forms
+    {
+        let cnt = if thorough { 120 } else { 30 };
+        for i in 0..cnt {
+            let n = if i % 3 == 2 { 4 } else { 3 };
+            let outs = 1 + (i / 3) % 3;
+            if n == 3 && outs == 1 && i % 2 == 0 {
+                continue; // covered exactly above
+            }
+            let fs: Vec<Vec<usize>> = (0..outs)
+                .map(|_| {
+                    if n == 4 && r.gen_range(0..3) == 0 {
+                        let k = 3 + r.gen_range(0..4);
+                        sparse_on(n, &mut r, k)
+                    } else {
+                        random_on(n, &mut r)
+                    }
+                })
+                .collect();
+            let kind = ["esop", "esop", "sop", "sopes"][i % 4];
+            let t = [(3, 3, 1), (3, 1, 1), (2, 3, 3), (3, 2, 2), (1, 1, 1)][i % 5];
+            let variants: Vec<Value> = (0..2)
+                .map(|_| {
+                    let mut perm: Vec<usize> = (0..n).collect();
+                    for k in (1..n).rev() {
+                        perm.swap(k, r.gen_range(0..=k));
+                    }
+                    let mut order: Vec<usize> = (0..outs).collect();
+                    for k in (1..outs).rev() {
+                        order.swap(k, r.gen_range(0..=k));
+                    }
+                    json!({"perm": perm, "order": order})
+                })
+                .collect();
+            eps.push(ep(n, vec![json!({"op": "optimize_var", "kind": kind, "n": n, "fs": fs, "andc": t.0, "xorc": t.1, "orc": t.2, "variants": variants})]));
         }
     }
     eps
